@@ -9,7 +9,15 @@
   * §D  one increment split into `bump` (the four `incrementAt`) and the aging step
         (`incrStep`, agreeing with `Sketch.increment false`)
   * §E  the no-overflow invariant `CInv`
-  * §F  runs with the ghost count, the run invariant
+  * §F  runs with the ghost count (`runG`), the run invariant `RInv`
+  * §G  the only possible fault (`step_total`), helpers for evaluating concrete runs, witnesses
+
+  Proof-engineering note.  `nib`, `halveWord`, `incrementAt`, `reset` … must never be unfolded by
+  the kernel (or by `omega`'s atom matching, which uses `isDefEq`) on symbolic arguments: a
+  failing definitional-equality test ends up evaluating `Nat.mod`/`Nat.mul` on huge literals in
+  unary.  Hence: record projections go through `mk_*`/`bump_*` rewrite lemmas instead of `rfl`,
+  the shape of `increment` is established for abstract `inc`/`rst` (`incGen`), and compound
+  terms are `generalize`d before `omega`.
 -/
 import MiniMoka.Sketch
 
